@@ -12,7 +12,7 @@ RULE = ('real threads under a deterministic line-granularity scheduler (sys.sett
         'thread B parses on the same Licensing to completion and thread C constructs another Licensing and parses; then A resumes. '
         'The subsequent parse: on a Licensing that has already parsed one text, A parses another text (or the same) and is preempted '
         'before every k-th line while B parses the previous (or another) text. Construction meanwhile: A is preempted before every k-th '
-        'line of its first parse while another thread constructs a Licensing over 1200 keys never seen before. '
+        'line of its first parse while another thread constructs a Licensing over 1200 keys never seen before; the index loaders (build_licensing, build_spdx_licensing over a small index) preempted before their k-th line while another thread parses a text with words that are not valid keys on a warm Licensing. '
         'Spec: every result equals the result of the call run alone. Correspondence: the sequence of protocol steps the threads '
         'took (read shared / allocate / add / make_automaton / publish / use) is replayed on the Lean protocol model and the '
         'tokenizer each thread used (entries, finalised) must be the one the model says. non-trivial = the preemption falls inside '
@@ -118,7 +118,52 @@ class Prop(BaseProp):
             return Verdict('spec', case, 'the constructing thread failed', impl=list(ts[1].result)[:3], tags=['heavy'])
         return Verdict('ok', case, impl=got, nontrivial=True, tags=['heavy'])
 
+    LOADER_INDEX = [{'license_key': 'lic-%d' % i, 'spdx_license_key': 'SPDX-%d' % i if i % 3 else None,
+                     'other_spdx_license_keys': ['old-%d' % i] if i % 2 else [], 'is_exception': i % 4 == 0,
+                     'is_deprecated': i % 5 == 0} for i in range(8)]
+    LOADER_TEXTS = ['mit and foo/bar', 'gpl 2.0 or a$ and mit', 'mit or and', 'GPLv2 with Classpath or mit or foo bar']
+
+    def eval_loader(self, drv, case, solo_cache={}):
+        """while another thread builds a Licensing from a license index: the loading thread is preempted before its k-th line,
+        meanwhile A parses a text - well formed or not, with words that are not valid keys - on a warm shared Licensing to
+        completion; then the loader resumes. A's outcome is its outcome alone (the same error for the same fault), and the
+        loader's table is the table of the index."""
+        ti, k0, which = case['table'], case['ks'][0], case.get('loader', 'spdx')
+        table, text0 = TABLES[ti]
+        text = self.LOADER_TEXTS[case.get('text', 0)]
+        if ('loader', ti, text) not in solo_cache:
+            solo_cache[('loader', ti, text)] = self.solo(table, text)[1]
+        want = solo_cache[('loader', ti, text)]
+        build = le.build_spdx_licensing if which == 'spdx' else le.build_licensing
+        if ('table', which) not in solo_cache:
+            solo_cache[('table', which)] = sorted(build([dict(r) for r in self.LOADER_INDEX]).known_symbols)
+        L = le.Licensing(impl.table_objs(table))
+        L.parse(text0)
+
+        def fl():
+            return sorted(build([dict(r) for r in self.LOADER_INDEX]).known_symbols)
+
+        def sf(i, runnable, steps):
+            if 't0' in runnable and steps['t0'] < k0:
+                return ('t0', k0 - steps['t0'])
+            if 't1' in runnable:
+                return ('t1', BIG)
+            return ('t0', BIG)
+        try:
+            ts, abstract = sched.run([fl, lambda: L.parse(text)], sf)
+        except RuntimeError as e:
+            return Verdict('spec', case, str(e))
+        got = canon(ts[1].result)
+        if got != want:
+            return Verdict('spec', case, 'a call returns something else than when run alone (another thread was loading a license index meanwhile)',
+                           impl=got, model=want, tags=['loader'])
+        if ts[0].result[0] != 'ok' or ts[0].result[1] != solo_cache[('table', which)]:
+            return Verdict('spec', case, 'the loading thread did not build the table of the index', impl=list(ts[0].result)[:2], tags=['loader'])
+        return Verdict('ok', case, impl=got, nontrivial=True, tags=['loader'])
+
     def eval_case(self, drv, case, solo_cache={}):
+        if case.get('scn', 'first') == 'loader':
+            return self.eval_loader(drv, case)
         if case.get('scn', 'first') == 'heavy':
             return self.eval_heavy(drv, case)
         if case.get('scn', 'first') != 'first':
@@ -193,6 +238,12 @@ class Prop(BaseProp):
                     cases.append({'table': ti, 'ks': [k], 'scn': scn})
             for k in range(0, nsteps + 1):
                 cases.append({'table': ti, 'ks': [k], 'scn': 'heavy'})
+            # the index loaders, preempted before each of their lines (every third line in the quick tier)
+            for which in ('spdx', 'scancode'):
+                build = le.build_spdx_licensing if which == 'spdx' else le.build_licensing
+                nl = sched.run([lambda: build([dict(r) for r in self.LOADER_INDEX])], lambda i, r, st: (r[0], BIG))[0][0].steps
+                for j, k in enumerate(range(0, nl + 1, 1 if tier == 'thorough' else 3)):
+                    cases.append({'table': ti, 'ks': [k], 'scn': 'loader', 'loader': which, 'text': (j + ti) % len(self.LOADER_TEXTS)})
             if tier == 'thorough':
                 for _ in range(1500):
                     cases.append({'table': ti, 'ks': [rng.randint(0, nsteps), rng.randint(0, nsteps)]})
